@@ -14,6 +14,6 @@ javac -cp /opt/veriftools/tla/tla2tools.jar -d work/classes tla/overrides/BigNat
 # pre-build the recorders in both profiles (checks rebuild incrementally against /repo's working tree)
 ( cd harness && cargo build --offline --release --bins 2>&1 | tail -2 && cargo build --offline --profile chk --bins 2>&1 | tail -2 )
 ( cd leak && cargo build --offline --release 2>&1 | tail -2 )
-echo "setup ok"
 # uninstrumented twin of the leak recorder for the machine-level pass of C01 (valgrind lackey)
 ( cd leak && RUSTFLAGS="--cfg crypto_bigint_verif --check-cfg cfg(crypto_bigint_verif) -Cforce-frame-pointers=yes -Crelocation-model=static -Ctarget-feature=+crt-static" CARGO_TARGET_DIR=../work/target-leak-plain cargo build --offline --release 2>&1 | tail -1 )
+echo "setup ok"
